@@ -253,7 +253,7 @@ class NonlinearIOSystem(InputOutputSystem):
         newsys.set_connect_map(np.block(
             [[np.zeros((self.ninputs, self.noutputs)),
               np.zeros((self.ninputs, other.noutputs))],
-             [np.eye(self.ninputs, self.noutputs),
+             [np.eye(other.ninputs, self.noutputs),
               np.zeros((other.ninputs, other.noutputs))]]
         ))
 
